@@ -21,6 +21,7 @@ func checkC01(ctx *Ctx) *Result {
 	r.NotDecided = "the heart of the property: that Insert, Contains and splitAtCommonSuffix implement set union of the patterns' denotations for every insertion order, duplicate, subsuming pattern and shared suffix (data-structure correctness over runtime values)"
 	r.Trusted = append([]string{"slices.BinarySearch, strings.IndexByte, append, copy behave as documented"}, trustedRequestPath...)
 	r.rule("R1.1", "glue equivalence on the request path: allowed-treatment ⇔ allow-all ∨ (Parse.ok ∧ Contains), both directions", 100)
+	r.rule("R1.13", "no undocumented refusal: a debug-off preflight that passed the origin step fails only where the private-network, method or header step fails for its documented reason", 20)
 	r.rule("R1.3", "port-code encoding agreement between add / contains / elems; sentinel and shift disjoint from real ports", 6)
 	r.rule("R1.4", "parallel slices are updated pairwise, same constructor, same index; never reordered or resized alone", 4)
 	r.rule("R1.5", "Insert always adds (or is subsumed by a wildcard entry); wildcard flag = result of the `*` test", 6)
@@ -73,6 +74,16 @@ func checkC01(ctx *Ctx) *Result {
 				}
 			}
 			r.check(good, "R1.1", desc, "", detail, 1)
+			// R1.13, the converse for preflights: once the origin step has passed,
+			// a refusal is decided by a later step for its documented reason —
+			// nothing else turns an allowed origin away
+			if isPreflightPath(rp) && rp.A[aDebug] != 1 && rp.StatusTag != successStatusTag &&
+				rp.Is(aParseOK) && (rp.Is(aContains) || allowAllPath(ctx, rp)) {
+				pna := rp.Is(aPNTrue) && rp.Not(aPNA) && rp.Not(aPNANoCors)
+				method := rp.Not(aSafe) && rp.Not(aAnyMethod) && rp.Not(aListed)
+				hdrs := rp.Is(aACRH) && rp.Not(aAsterisk) && (rp.Is(aNoHdrs) || rp.Not(aCheck))
+				r.check(pna || method || hdrs, "R1.13", desc, "", "a preflight from an allowed origin is refused although no later step gives its documented reason (private-network access asked but not enabled; method neither safelisted nor allowed; a requested header name not allowed)", 1)
+			}
 		}
 	}
 
@@ -118,10 +129,10 @@ func treeRules(ctx *Ctx, r *Result) {
 	// C13 (only when this is not C13 itself)
 	if r.Property != "C13" {
 		docs := map[string]string{
-			"R13.1": "documented limits are the constants in use; the lexers' loops are bounded by them; parsePort: first byte a non-zero digit, success ⇒ port ≤ 65535",
-			"R13.5": "request-side Parse: length cap admits the longest origin an accepted pattern denotes, same lexers, trailing input rejected",
-			"R13.6": "parseScheme and parsePort report success only after consuming at least one byte",
-			"R13.7": "fastParseHost: step table of the domain/IPv4 scan",
+			"R13.1":  "documented limits are the constants in use; the lexers' loops are bounded by them; parsePort: first byte a non-zero digit, success ⇒ port ≤ 65535",
+			"R13.5":  "request-side Parse: length cap admits the longest origin an accepted pattern denotes, same lexers, trailing input rejected",
+			"R13.6":  "parseScheme and parsePort report success only after consuming at least one byte",
+			"R13.7":  "fastParseHost: step table of the domain/IPv4 scan",
 			"R13.11": "parseScheme and parsePort take the longest token (maximal munch)",
 		}
 		for id, doc := range docs {
@@ -433,6 +444,13 @@ func treeRules(ctx *Ctx, r *Result) {
 				if fullV == 0 {
 					fullV = pa.Val("bin:==(" + split + "#1, \"\")")
 				}
+				// ... or, said with the library: the child's suffix is a suffix of the
+				// host (strings.CutSuffix / HasSuffix + TrimSuffix)
+				hasSuf := "call:strings.HasSuffix(" + h + ", " + child + ".suf)"
+				trimmed := "call:strings.TrimSuffix(" + h + ", " + child + ".suf)"
+				if fullV == 0 {
+					fullV = pa.Val(hasSuf)
+				}
 				good, detail := true, ""
 				switch {
 				case empty == 0:
@@ -457,7 +475,7 @@ func treeRules(ctx *Ctx, r *Result) {
 					if pa.Val(wild) != -1 || pa.Val(edge+"#1") != 1 || fullV != 1 {
 						good, detail = false, "the walk descends without (wildcard miss ∧ edge for the host's last byte ∧ the child's whole suffix matching)"
 					}
-					if pa.Next[hostPhi] == nil || pa.Next[hostPhi].Key() != split+"#0" {
+					if pa.Next[hostPhi] == nil || (pa.Next[hostPhi].Key() != split+"#0" && pa.Next[hostPhi].Key() != trimmed) {
 						good, detail = false, "after descending, the remaining host is not the host minus the matched suffix"
 					}
 					if pa.Next[nodePhi] == nil || pa.Next[nodePhi].Key() != child {
@@ -885,6 +903,11 @@ func insertRestructuring(ctx *Ctx, r *Result) {
 		desc := "Tree.Insert {" + radixShort(pa) + "}"
 		good, detail := true, ""
 		var first *Term // result of the upsert that replaces the child on split paths
+		// (upsertEdge may hand back the child itself or its index among n.children)
+		isFirst := func(k string) bool {
+			// (n.children read again after the insertion carries a later epoch)
+			return first != nil && (k == first.Key() || (strings.HasPrefix(k, "iaddr("+N+".children") && strings.HasSuffix(k, ", "+first.Key()+")")))
+		}
 		sawG1, sawRest := false, false
 		split := false
 		for _, e := range pa.Effects[pa.PreEff:] {
@@ -941,7 +964,7 @@ func insertRestructuring(ctx *Ctx, r *Result) {
 					}
 				case suf == SPL+"#1":
 					sawG1 = true
-					if first == nil || target != first.Key() || label != lastByte(SPL+"#1") {
+					if first == nil || !isFirst(target) || label != lastByte(SPL+"#1") {
 						good, detail = false, "the old child's remainder is not re-attached under the common-suffix node by the last byte of its remaining prefix"
 					}
 					for _, f := range []string{"edges", "children", "schemes", "ports"} {
@@ -951,7 +974,7 @@ func insertRestructuring(ctx *Ctx, r *Result) {
 					}
 				case suf == SPL+"#0":
 					sawRest = true
-					if first == nil || target != first.Key() || label != lastByte(SPL+"#0") {
+					if first == nil || !isFirst(target) || label != lastByte(SPL+"#0") {
 						good, detail = false, "the new key's remaining prefix is not attached under the common-suffix node by its last byte"
 					}
 					if pa.Val("bin:==(len:builtin.len("+SPL+"#0), 0)") != -1 {
@@ -964,7 +987,7 @@ func insertRestructuring(ctx *Ctx, r *Result) {
 					good, detail = false, "a node is attached whose suffix is none of: the remaining key, the common suffix, the child's remaining prefix, the key's remaining prefix: "+suf
 				}
 			case "(*origins.node).add":
-				if split && first != nil && e.Args[0].Key() == first.Key() {
+				if split && first != nil && isFirst(e.Args[0].Key()) {
 					sawRest = true
 					if pa.Val("bin:==(len:builtin.len("+SPL+"#0), 0)") != 1 {
 						good, detail = false, "the pattern is recorded on the common-suffix node although part of its key remains"
